@@ -315,3 +315,31 @@ Definition fetch_chunk (chk : bool) (file_size start len : N) : paged :=
   else if file_size <? start + len then
     (if len =? 0 then mk_paged (TOk 0) 0 else mk_paged (if chk then TErr else TFuel) len)
   else mk_paged (TOk len) len.
+
+(* ------------------------------------------------------------------ COMPRESSED data page v2 (page_reader.rs prepare_data_page_v2) *)
+(* (c, u) = checked_page_sizes(metadata)?       non-negative, chunk_offset + c inside the chunk (no c = u test: codec is Some)
+   reset_and_resize(u)                           allocation of u <= 2^31-1 bytes whatever the chunk holds
+   ul = usize(rep_levels_byte_len) + usize(def_levels_byte_len)      (negative -> Err)
+        .filter(|len| len <= c && len <= u)?     <- the two halves are the flags le_c / le_u (scanned: gen/TablesFault.v)
+   levels_dest = &mut dest[..ul]                 <- slice panic when ul > u
+   levels_src = chunk_slice(chunk_offset, ul)?   chunk_offset += ul
+   compressed_len = c - ul                       <- underflow when ul > c (overflow-checked build: panic)
+   page_src = chunk_slice(chunk_offset, compressed_len)?
+   if compressed_len > 0 { codec.decompress(page_src, &mut dest[ul..])? }
+   The codec is an oracle: codec_ok says whether decompress succeeds. *)
+Definition site_levels_dest : N := 8.     (* &mut dest[..uncompressed_len]: range end index out of range *)
+Definition site_levels_sub : N := 9.      (* compressed_size - uncompressed_len underflows *)
+
+Definition load_page_v2_compressed (le_c le_u : bool) (chunk_len off : N) (usz csz rep def : Z) (codec_ok : bool) : paged :=
+  if ((usz <? 0) || (csz <? 0))%Z then mk_paged TErr 0 else
+  let u := Z.to_N usz in
+  let c := Z.to_N csz in
+  if chunk_len <? off + c then mk_paged TErr 0 else
+  if ((rep <? 0) || (def <? 0))%Z then mk_paged TErr u else
+  let ul := Z.to_N rep + Z.to_N def in
+  if (le_c && (c <? ul)) || (le_u && (u <? ul)) then mk_paged TErr u else
+  if u <? ul then mk_paged (TPanic site_levels_dest) u else
+  if chunk_len <? off + ul then mk_paged TErr u else
+  if c <? ul then mk_paged (TPanic site_levels_sub) u else
+  if (0 <? c - ul) && negb codec_ok then mk_paged TErr u
+  else mk_paged (TOk (off + c)) u.
